@@ -290,7 +290,9 @@ class Builder:
                 o = curve_recipe(dyadic_nodes(rnd, 3, 3))
                 kw = {"verify": False}
         else:                                          # the algebraic strategy never touches the workspaces
-            d, e = rnd.choice([(1, 1), (1, 2), (2, 1), (2, 2), (1, 3)])
+            # incl. degree pairs the algebraic strategy refuses (NotImplementedError raised from inside its front end: whatever it
+            # set up before must be undone on that path too - seed C14_j) with overlapping boxes
+            d, e = rnd.choice([(1, 1), (1, 2), (2, 1), (2, 2), (1, 3), (3, 4), (4, 3), (4, 4), (2, 5), (5, 1)])
             s = curve_recipe(int_nodes(rnd, 2, d + 1, 4))
             o = curve_recipe(int_nodes(rnd, 2, e + 1, 4))
             kw = {"strategy": {"enum": "ALGEBRAIC"}}
@@ -634,6 +636,26 @@ class Builder:
         rows = rnd.sample([[0.25, 0.5], [0.0, 0.0], [0.125, 0.75], [0.5, 0.5], [0.375, 0.125]], 3)
         return self.add(TH + "evaluate_cartesian_multi", None, [arr(tn), d, buf("cart", rows), 2])
 
+    def op_extreme_scale(self):
+        """calls whose arithmetic meets a floating-point event that is silent under NumPy's default error handling (underflow of a
+        power of a tiny parameter, products of microscopic coordinates): their outcome must not depend on what earlier calls did to
+        the process (seed C14_j: an error mode left switched to "raise")"""
+        rnd = self.rnd
+        f = rnd.choice(["evaluate", "evaluate_multi", "is_valid", "area", "hodograph"])
+        if f in ("evaluate", "evaluate_multi", "hodograph"):
+            v, d, nodes = self.curve_value()
+            tiny = rnd.choice([2.0 ** -600, 2.0 ** -1000, 5e-324])
+            if f == "evaluate":
+                return self.add("Curve.evaluate", v, [tiny])
+            if f == "hodograph":
+                return self.add("Curve.evaluate_hodograph", v, [tiny])
+            return self.add("Curve.evaluate_multi", v, [arr([tiny, 0.5, 1.0 - 2.0 ** -53], "F")])
+        sc = rnd.choice([2.0 ** -200, 2.0 ** -400, 2.0 ** -530])
+        d = rnd.choice([1, 2, 3])
+        p0, p1, p2 = (0.0, 0.0), (sc * rnd.choice([1.0, 3.0]), 0.0), (sc * 0.5, sc * rnd.choice([1.0, 2.0]))
+        t = tri_recipe(lin_tri(d, p0, p1, p2), d)
+        return self.add("Triangle." + f, t, [])
+
     def op_state(self):
         """speedup only: the management entry points of the hidden state"""
         rnd = self.rnd
@@ -666,7 +688,7 @@ class Builder:
         h = self.heavy
         table = [(self.op_curve_intersect, 22 * h), (self.op_all_intersections, 4 * h), (self.op_tri_intersect, 12 * h),
                  (self.op_tri_raw, 3 * h), (self.op_tri_lattice, 30 * h), (self.op_newton_stress, 10 * h), (self.op_curve_method, 18), (self.op_tri_method, 14), (self.op_polygon, 4),
-                 (self.op_helper, 14), (self.op_repeat, 9 * h), (self.op_object_chain, 10), (self.op_reused_buffers, 8)]
+                 (self.op_helper, 14), (self.op_repeat, 9 * h), (self.op_object_chain, 10), (self.op_reused_buffers, 8), (self.op_extreme_scale, 5)]
         if self.speedup:
             table.append((self.op_state, 5))
         tot = sum(w for _, w in table)
